@@ -525,6 +525,37 @@ def run_case(R, t, kind, pos, data, variant):
         R.samples.append({k: case[k] for k in ("level", "mode", "fault", "pos", "variant", "len", "datagram")} | {"outcome": outcome if outcome != "exc" else repr(val)[:100], "steps": steps, "heap_peak": peak}) if len(R.samples) < 6 else None
 
 
+def latched_agents(R):
+    """An engine whose boots counter is latched at 2^31-1 answers EVERY authenticated
+    request with an authentic notInTimeWindow report (RFC 3414 3.2 (7a)): each datagram
+    is perfectly well-formed, and the call still has to end - after a bounded number of
+    requests and steps - and so does the next one on the same client."""
+    for level in rig.AUTH_LEVELS:
+        w = World(level, DB, agent_kwargs={"boots": 2**31 - 1})
+        for attempt in range(3):
+            w.seam.reset(budget=12)
+            tracemalloc.reset_peak()
+            try:
+                kind, val, steps = budget.run_budgeted(lambda: drive(w.client.multiget([OID(k) for k in K[:4]])), 8 * Target.A, light=True)
+            except rig.BudgetExceeded:
+                kind, val, steps = "requests", None, budget.MONITOR.count
+            nreq = len(w.seam.requests)
+            R.evaluations += 1
+            R.mon["latched_engine_calls"] += 1
+            case = {"level": level, "mode": "latched-engine", "fault": "every answer is an authentic notInTimeWindow report", "pos": attempt, "variant": "agent", "datagram": "len:0", "len": 0}
+            R.fingerprints.add("%s/latched/%d" % (level, attempt))
+            if kind == "over":
+                R.violation(case, "more than %d logical steps against an engine that keeps answering notInTimeWindow (%d requests so far)" % (8 * Target.A, nreq), None)
+                break
+            if kind == "requests" or nreq > 6:
+                R.violation(case, "%d requests for one call against an engine that keeps answering notInTimeWindow" % nreq, None)
+                break
+            if kind != "exc":
+                R.violation(case, "a latched engine never accepts a request, yet the call returned %r" % (val,), None)
+                break
+            R.mon["latched_engine_calls_ended"] += 1
+
+
 def target_plan(tier):
     if tier == "quick":
         return [("v2c", "get"), ("v3-md5", "get"), ("v3-sha1-priv", "get"), ("v3-noauth", "discovery"), ("v2c", "trap"), ("v1", "get"), ("v2c", "walk"), ("v3-md5", "report")]
@@ -548,6 +579,8 @@ def run(R):
     if not calibrate(R):
         return
     quick = R.tier == "quick"
+    if R.shard == 1 % R.nshards:
+        latched_agents(R)
     rng = R.rng("bombs")
     streams = []
     targets = []
@@ -617,6 +650,10 @@ def run(R):
 def replay(R, v):
     c = v["case"]
     install_localiser()
+    if c.get("mode") == "latched-engine":
+        if calibrate(R):
+            latched_agents(R)
+        return
     calibrate(R)
     t = TrapTarget() if c["mode"] == "trap" else Target(c["level"], c["mode"])
     if c["datagram"].startswith("hex:"):
